@@ -79,13 +79,18 @@ prop("C05", "nitrocheck",
      level_note=SEQ_NOTE + " Backups go to tmpfs scratch directories; free-running concurrent mutation during backup is sampled only through the callback hand-over.")
 
 prop("C06", "nitrocheck",
-     [dict(name="TestC06", quick=500, thorough=5000, steps=50)],
+     [dict(name="TestC06", quick=400, thorough=5000, steps=50),
+      dict(name="TestC06Conc", quick=300, thorough=4000, env={"GOMAXPROCS": "2"})],
      rule="rapid state machine weighted to deletes across epochs (single and bulk), snapshots closed in drawn (non-FIFO) order, GC; strict mode: after every Close "
           "that retires a snapshot and after every GC() the harness waits (bounded) for the collection workers and then requires node_count == the epoch model's "
           "physical count (#live + #versions whose deleting epoch's snapshot chain is not fully closed), soft_deletes == 0, memory_used == the exact byte sum of those "
           "nodes and items, GetLastGCSn() == the model frontier synchronously after GC(); every open snapshot still scans to its content after every step (precision); "
           "finally all snapshots are closed in drawn order, everything is deleted and sealed, and MemoryInUse() must be back at the fresh-instance value. "
-          "Non-trivial: a cross-epoch-deleted version was collected while a newer snapshot was still open, or a non-FIFO close order occurred. Distinct = hash of the history.",
+          "Non-trivial: a cross-epoch-deleted version was collected while a newer snapshot was still open, or a non-FIFO close order occurred. Distinct = hash of the history. "
+          "TestC06Conc (controlled scheduler, user memory in a quarter of the cases): rounds of 2-4 writers with delete-heavy scripts over 2-5 keys born in earlier epochs "
+          "(several writers deleting the same key), snapshots, then the references are released by concurrently scheduled closer threads; oracle: per-round linearizability, "
+          "each snapshot retired once, after GC() the frontier is the last snapshot and node_count == live items, allocator clean after Close. Non-trivial there: two "
+          "deletes of one key overlapped, or >=3 snapshots were released concurrently.",
      technique="model-based stateful property testing (epoch/collection-frontier model vs statistics and memory accounting)",
      design_ref="DESIGN.md §3 C06",
      level_text="Generated histories against an exact physical-version model; completeness is judged only at points where the property promises a pass (retiring Close, GC()).",
@@ -210,17 +215,53 @@ prop("C17", "slcheck",
      level_note=SCHED_NOTE)
 
 prop("C04", "slcheck",
-     [dict(name="TestC04A", quick=2500, thorough=40000, env=G1)],
+     [dict(name="TestC04A", quick=2500, thorough=40000, env=G1),
+      dict(name="TestC04B", quick=250, thorough=4000, env={"GOMAXPROCS": "2"})],
      rule="Layer A (skiplist + access barrier + guard allocator in trap mode, fully controlled): 2-4 threads play writer (Insert2 with drawn heights; delete = lookup + "
           "DeleteNode2 + FlushSession-on-success under one token; 1-3 contended keys), collector (unlink a chained list of nodes, then flush the list) and reader (iterator "
           "with refresh interval 0-3, Seek, Pause/Resume); schedule drawn. Oracle: no access to a freed block (page fault mapped to the block and its alloc/free ops), no "
           "double/unknown free, after every completed operation and at the end every node reachable from head at any level is live, node under an open iterator is live, at "
           "quiescence live blocks == linked nodes + sentinels, C14 walk. Non-trivial: a block was freed while another thread was inside an operation, or an iterator stood "
-          "on a node marked deleted. Distinct = hash of (roles, schedule).",
+          "on a node marked deleted. Distinct = hash of (roles, schedule). Layer B (TestC04B: real nitro, user memory on the guard allocator in quarantine mode, free-running "
+          "collection and free workers): 1-3 rounds of 2-3 controlled writers (contended puts/deletes, same-epoch and cross-epoch) and 0-2 controlled snapshot readers "
+          "(refresh rate 0-2) whose scans must equal the snapshot content; snapshots retired in drawn order between rounds; oracle: no fault, scans exact, linearizable "
+          "rounds, no bad free at any point, allocator empty after Close. Non-trivial there: blocks were freed before Close with pre-emptions and overlapping operations "
+          "or concurrent reader scans.",
      technique="generated roles + schedules under a controlled scheduler with a guard allocator (page-fault / live-set oracle)",
      design_ref="DESIGN.md §3 C04",
      level_text="Schedule-as-input exploration with an allocator that turns every stale access into an attributable fault and every bad free into a record.",
      level_note=SCHED_NOTE + " Layer A judges the skiplist/barrier mechanism under a correct client protocol; nitro's own use of it is layer B.")
+
+G2 = {"GOMAXPROCS": "2"}
+SEMI_NOTE = ("Harness threads (writers, openers/closers, readers) are scheduled by the token-passing scheduler with yields at every skiplist node step and at the nitro "
+             "hooks (Open, Close, DeleteNode, GC); nitro's own collection/free workers run freely and are recognised by goroutine id, so races between a harness thread "
+             "and a worker are sampled, not owned (they are owned one level down in C04 layer A / C15).")
+
+prop("C03", "conccheck",
+     [dict(name="TestC03", quick=600, thorough=8000, env=G2)],
+     rule="1-3 rounds per case on one instance (drawn comparator bytes/KV): 2-4 controlled writer threads (one Writer each) run drawn scripts of 1-4 Put2/Delete/GetNode over "
+          "2-3 keys (collisions are the norm; later rounds hit keys born or deleted in earlier epochs; older snapshots drawn open or closed) under a drawn schedule (PCT / "
+          "random walk over node-level and DeleteNode yield points); after each round NewSnapshot + scan. Oracle: porcupine per key over exact call/return stamps with the "
+          "snapshot content as final observation (KV: values tracked), Count() == scan length, no duplicate keys, untouched keys preserved; finally all snapshots closed, "
+          "GC(), statistics collapse to the live items. Non-trivial: a round in which operations of different threads on one key overlapped and a thread was pre-empted "
+          "inside an operation. Distinct = hash of (scripts, schedules).",
+     technique="generated scripts + schedules under a controlled scheduler, porcupine linearizability oracle",
+     design_ref="DESIGN.md §3 C03",
+     level_text="Schedule-as-input exploration of contended writer rounds on real instances with a linearizability oracle.",
+     level_note=SEMI_NOTE)
+
+prop("C08", "conccheck",
+     [dict(name="TestC08", quick=1200, thorough=15000, env=G2)],
+     rule="1-3 snapshots with garbage; 2-4 controlled threads each owning 0-2 references per snapshot (one may be an outsider holding only the pointers) run drawn scripts of "
+          "Open/Close/NewIterator, then release everything they own (iterators included); yields between the zero test and the increment in Open, after the decrement and at "
+          "the retirement in Close, in GC, and at every node step of the snapshot lists. Oracle: porcupine per snapshot on a counter model (Open/NewIterator succeed iff "
+          "count > 0); after the run Open fails and NewIterator returns nil on every snapshot; every snapshot was retired exactly once (hook count); after GC(): "
+          "GetSnapshots() empty, GetLastGCSn() == last snapshot, statistics collapse to the live items (collector not wedged). Non-trivial: an Open/NewIterator overlapped "
+          "a Close of the same snapshot by another thread with a pre-emption. Distinct = hash of (ownership, scripts, schedule).",
+     technique="generated scripts + schedules under a controlled scheduler, counter-model linearizability + retirement count + collector progress",
+     design_ref="DESIGN.md §3 C08",
+     level_text="Schedule-as-input exploration of the Open/Close race window on real instances.",
+     level_note=SEMI_NOTE)
 
 NOT_APPLICABLE = {}
 
